@@ -91,6 +91,21 @@ Theorem C19_export_index_none_label_refuted :
 Proof. exact export_index_none_refuted. Qed.
 Print Assumptions C19_export_index_none_label_refuted.
 
+(* ================= VectorContainer.to_dataframe ================= *)
+
+(* one column per variable of the container, in creation order (for a model object: status, iterations, then the
+   variables), one row per period, cells and float / int / bool dtypes exactly those of the series *)
+Theorem C19_container_export (sp : span) (vars : list (string * series)) (ix : pindex) :
+  pd_index sp = Some ix -> (forall k s, In (k, s) vars -> length (scells s) = length (splabels sp)) ->
+  container_to_table sp vars = TOk (mkTable ix (map col_of vars)) /\
+  map pcname (map col_of vars) = map fst vars /\
+  length (ilabels ix) = length (splabels sp) /\
+  (forall k s, In (k, s) vars -> sdt s <> NObj ->
+     In (mkCol k (match sdt s with NFloat => PFloat64 | NInt => PInt64 | NBool => PBool | NStr => PStrDt | NObj => PObject end) (scells s))
+        (map col_of vars)).
+Proof. exact (container_to_table_spec sp vars ix). Qed.
+Print Assumptions C19_container_export.
+
 (* ================= linker export ================= *)
 
 (* one table for the linker (first, under its name) and one per submodel, in submodel order, under the submodel's key; each
@@ -105,10 +120,7 @@ Theorem C19_linker_tables (st it ii : bool) (l : flinker) (ix : fmodel -> pindex
          :: map (fun km => (fst km, mkTable (ix (snd km)) (export_cols st it ii (snd km)))) (lsubs l))
   /\ (forall m, m = lmodel l \/ In m (map snd (lsubs l)) ->
                 model_to_table st it ii m = TOk (mkTable (ix m) (export_cols st it ii m))).
-Proof.
-  exact (fun Hnd Hn Hall => conj (linker_tables st it ii l ix Hnd Hn Hall)
-           (fun m Hm => model_to_table_spec st it ii m (ix m) (proj1 (Hall m Hm)) (proj2 (Hall m Hm)))).
-Qed.
+Proof. exact (linker_tables_full st it ii l ix). Qed.
 Print Assumptions C19_linker_tables.
 
 (* a submodel keyed like the linker (the default name is '_'): the linker's own table is overwritten — as many tables as
@@ -156,6 +168,26 @@ Theorem C19_from_to_roundtrip_object (st it ii : bool) (m : fmodel) (ix : pindex
 Proof. exact (from_to_roundtrip_object st it ii m ix c). Qed.
 Print Assumptions C19_from_to_roundtrip_object.
 
+(* the class default dtype (float) applied to float / int / bool series: every value is reproduced numerically — an int k
+   with |k| <= 2^53 comes back as the float k, True / False as 1.0 / 0.0, floats unchanged (bit for bit, NaN and -0.0 included) *)
+Theorem C19_from_to_default_float (st it ii : bool) (m : fmodel) (ix : pindex) (c : mclass) :
+  wf_model m (length (splabels (fspan m))) -> pd_index (fspan m) = Some ix -> span_stable (fspan m) = true ->
+  cnames c = fnames m -> cdtype c = NFloat ->
+  (ii = true \/ forall k, In k (fnames m) -> starts_underscore k = false) ->
+  (cstrict c = true -> st = false /\ it = false) ->
+  (forall k, In k (fnames m) -> mem_s k init_params = false) ->
+  (forall k s, In k (fnames m) -> assoc_s k (fvars m) = Some s ->
+     sdt s <> NObj /\
+     forallb (fun x => match x with CFlt _ | CBool _ => true | CInt z => Z.abs z <=? 9007199254740992 | _ => false end) (scells s) = true) ->
+  exists t m', model_to_table st it ii m = TOk t /\ from_table c t = TOk m' /\
+    splabels (fspan m') = splabels (fspan m) /\ fnames m' = fnames m /\
+    (forall k s, In k (fnames m) -> assoc_s k (fvars m) = Some s ->
+       assoc_s k (fvars m')
+       = Some (mkSeries NFloat (map (fun x => match x with CInt z => CFlt (FInt z) | CBool b => CFlt (FInt (if b then 1 else 0)) | _ => x end)
+                                    (scells s)))).
+Proof. exact (from_to_default_float st it ii m ix c). Qed.
+Print Assumptions C19_from_to_default_float.
+
 (* what the guards exclude really fails: a variable added at run time (not in NAMES) is exported and silently dropped *)
 Theorem C19_from_to_extra_variable_refuted :
   exists m c t m', (forall k, In k (cnames c) -> In k (fnames m)) /\ cstrict c = false /\
@@ -192,6 +224,31 @@ Theorem C19_symbols_roundtrip (ss : list symbol) :
   tbind (symbols_to_table ss) table_to_symbols = TOk ss.
 Proof. exact (symbols_roundtrip_ok ss). Qed.
 Print Assumptions C19_symbols_roundtrip.
+
+(* shape of symbols_to_dataframe for a non-empty list: a RangeIndex 0..n-1 and exactly the six Symbol fields as columns in
+   field order, whose cells the converters of dataframe_to_symbols map back to the fields *)
+Theorem C19_symbols_table_shape (s : symbol) (r : list symbol) :
+  sym_wf (s :: r) = true ->
+  exists d1 d2 d3 d4 d5 d6 nm lg ld eq cd,
+    symbols_to_table (s :: r)
+    = TOk (mkTable (mkIndex KRange PInt64 (map (fun i => CInt (Z.of_nat i)) (seq 0 (length (s :: r)))))
+             [mkCol "name" d1 nm; mkCol "type" d2 (map (fun x => CInt (type_value (stype x))) (s :: r));
+              mkCol "lags" d3 lg; mkCol "leads" d4 ld; mkCol "equation" d5 eq; mkCol "code" d6 cd]) /\
+    map convert_to_str_or_none nm = map sname (s :: r) /\
+    map convert_to_int_or_none lg = map (fun x => TOk (slags x)) (s :: r) /\
+    map convert_to_int_or_none ld = map (fun x => TOk (sleads x)) (s :: r) /\
+    map convert_to_str_or_none eq = map sequation (s :: r) /\
+    map convert_to_str_or_none cd = map scode (s :: r).
+Proof. exact (symbols_to_table_shape s r). Qed.
+Print Assumptions C19_symbols_table_shape.
+
+(* dataframe_to_symbols of ANY table either returns or raises KeyError (a field column is missing), TypeError (an extra
+   column; a lag that is text or too big), ValueError (not a Type value) or OverflowError (infinite lag) — nothing else *)
+Theorem C19_dataframe_to_symbols_errors (t : table) (e : exn) :
+  table_to_symbols t = TErr e ->
+  (match e with KeyError | TypeError | ValueError | OverflowError => true | _ => false end) = true.
+Proof. exact (table_to_symbols_errors t e). Qed.
+Print Assumptions C19_dataframe_to_symbols_errors.
 
 (* Type(x) inverts the enum values read from the regenerated constant table (Gen/Generated.v: type_order) *)
 Theorem C19_type_values_invert (t : ptype) : type_of_value (type_value t) = Some t.
